@@ -1,7 +1,7 @@
 #!/bin/bash
 # Runs every registered check (default: quick tier) and prints one line per property.
 T=${1:-quick}
-cd /verif
+cd "$(dirname "$(readlink -f "$0")")"
 for p in $(python3 -c "import json;print(' '.join(c['property_id'] for c in json.load(open('MANIFEST.json'))['checks']))"); do
   s=$(date +%s)
   out=$(./check $p --tier $T 2>&1); rc=$?
